@@ -121,20 +121,13 @@ def build_instrumented(ctx):
 OKCODES = "veaF"          # value, error value, absent, fatal `mlr:` error with non-zero exit
 BADCODES = {"P": "panic", "H": "hang", "R": "runtime-death", "I": "internal-coding-error", "U": "exit-without-mlr-message",
             "Z": "exit-0-mid-evaluation", "S": "not-evaluated-after-hangs", "X": "driver-error"}
-QUICK3 = "i0,i7,imax,f1_5,fnan,true,empty,sabc,sregexbad,sdate,a12345,amixed,mnested,mopts,func1,error,absent"
+EXCLUDED = "K"            # deliberately not evaluated (resource bound of the walk, listed in coq/C18/Exceptions.v); not a finding
+QUICK3 = "i0,i7,imax,fnan,true,empty,sabc,sregexbad,amixed,mopts,func1,absent"
 
 # stable witness classes of the genuine defects (function family, outcome) -> class
 FAMILIES = [
-    (("./",), "P", "bif-panic-dotslash-int-divide-by-zero"),
-    (("madd", "msub", "mmul", "mexp"), "P", "bif-panic-modular-arith-zero-modulus"),
-    (("percentile", "percentiles", "median"), "P", "bif-panic-percentile-interpolated-index-out-of-range"),
-    (("percentile", "percentiles", "median"), "I", "bif-internal-error-percentile-options-non-numeric-p"),
-    (("strptime", "strptime_local", "strpntime", "strpntime_local", "strfntime", "strfntime_local"), "P", "bif-panic-strptime-input-shorter-than-format-literal"),
-    (("leftpad", "rightpad"), "HRS", "bif-hang-pad-empty-or-huge"),
-    (("format_values", "unformat", "unformatx", "strrepeat"), "HRS", "bif-hang-or-oom-string-builders"),
-    (("concat", "append", "fmtnum", "fmtifnum", "flatten", "arrayify", "json_decode", "json_encode"), "I", "bif-internal-error-absent-or-funct-into-collection"),
-    (("invqnorm",), "I", "bif-internal-error-invqnorm-nan"),
-    (("kurtosis", "meaneb", "skewness", "stddev", "variance", "var", "mean", "minlen", "sum2", "sum3", "sum4"), "I", "bif-internal-error-stats-non-numeric-element"),
+    (("concat", "append", "fmtnum", "fmtifnum"), "I", "bif-internal-error-absent-or-funct-into-collection"),
+    (("kurtosis", "meaneb", "skewness", "stddev", "variance"), "I", "bif-internal-error-stats-non-numeric-element"),
 ]
 
 
@@ -298,7 +291,10 @@ def bif_oracle(ctx, mats):
         for s in m["shards"]:
             pos = 0
             for c, k in s["rle"]:
-                if c not in OKCODES:
+                if c == EXCLUDED:
+                    ctx.cov["bif_matrix"].setdefault("tuples_excluded_by_policy", {}).setdefault("%s/%d" % (s["name"], s["arity"]), 0)
+                    ctx.cov["bif_matrix"]["tuples_excluded_by_policy"]["%s/%d" % (s["name"], s["arity"])] += k
+                elif c not in OKCODES:
                     cls = bif_class(s["name"], c)
                     e = by_class.setdefault(cls, {"n": 0, "functions": set(), "witnesses": []})
                     e["n"] += k
@@ -309,6 +305,19 @@ def bif_oracle(ctx, mats):
                             e["witnesses"].append((s["name"], s["arity"], c, t, tuple_args(t, s["arity"], reps), msgs.get(t, "")))
                 pos += k
     ctx.cov["bif_bad_classes"] = {c: {"tuples": e["n"], "functions": sorted(e["functions"])} for c, e in by_class.items()}
+    # report (never edit) lines of the committed exception list that no longer occur in the regenerated table
+    present = set()
+    for m, reps in mats:
+        for s in m["shards"]:
+            for c, k in s["rle"]:
+                if c not in OKCODES:
+                    present.add((s["name"], ord(c)))
+    listed = re.findall(r'\(B "([^"]+)", (\d+)\)', strip_coq_comments((COQ / "C18/Exceptions.v").read_text()))
+    stale = ["%s/%s" % (n, chr(int(c))) for n, c in listed if (n, int(c)) not in present]
+    ctx.cov["stale_exceptions"] = {"note": "pairs of coq/C18/Exceptions.v absent from this run's table; delete them by hand (with the thorough tier as reference: the quick tier samples arity 3)",
+                                   "tier": ctx.tier, "pairs": stale}
+    if stale:
+        print("[C18] stale exception lines (report only): " + " ".join(stale), flush=True)
 
     def confirm(item):
         cls, e = item
@@ -539,7 +548,8 @@ def reader_part(ctx, exe):
     groups = {}
     for i, c in enumerate(cases):
         c["id"] = i
-        groups.setdefault((c["fmt"], c["opt"]), []).append(c)
+        # one worker per format; the option sets that switch process-global state (type inference) get their own
+        groups.setdefault((c["fmt"], c["opt"] if c["opt"] in ("S", "A", "O") else "plain"), []).append(c)
         ctx.dist("reader:" + c["fmt"]); ctx.dist("reader-mutation:" + c["kind"].split("+")[0])
     with ctx.timed("reader_inproc"):
         res = inproc_many(exe, list(groups.values()))
@@ -556,7 +566,7 @@ def reader_part(ctx, exe):
     # confirm suspects with the real binary; tie a random sample of the rest to the binary's classification
     sample = [c for c in cases if c["class"] in ("ok", "mlr_error")]
     ctx.rng.shuffle(sample)
-    sample = sample[:16 if ctx.tier == "quick" else 400]
+    sample = sample[:8 if ctx.tier == "quick" else 400]
 
     def cli(c):
         st, out, err = run_cli(ctx, c["args"], c["stdin"], timeout=25, max_out=20_000_000)
@@ -582,12 +592,56 @@ def reader_part(ctx, exe):
         if cls in seen_cls:
             continue
         seen_cls.add(cls)
-        ctx.violation({"class": cls, "part": "reader", "input": "mlr %s  < stdin" % " ".join(c["args"]), "args": c["args"], "stdin_hex": c["stdin"].hex(),
+        small = shrink_reader_witness(ctx, c["args"], c["stdin"], cls, c["fmt"])
+        ctx.violation({"class": cls, "part": "reader", "input": "mlr %s  < stdin" % " ".join(c["args"]), "args": c["args"], "stdin_hex": small.hex(),
+                       "stdin_hex_before_shrinking": c["stdin"].hex() if small != c["stdin"] else None,
                        "mutation": c["kind"], "observed": "%s exit=%s %s" % (k, st, err.decode("utf-8", "replace")[:500]),
                        "expected": "records or an `mlr:` error with non-zero exit"})
     ctx.cov["reader_mutation"]["suspects_inproc"] = len(suspects)
     ctx.cov["reader_mutation"]["suspects_not_reproduced_by_binary"] = unconfirmed
     return cases, res
+
+
+def shrink_seq(items, still_fails, budget=40):
+    """delta debugging (ddmin, complement removal only) over a sequence; still_fails(list) -> bool costs one mlr run"""
+    n, used = 2, 0
+    while len(items) >= 2 and used < budget:
+        chunk = max(1, len(items) // n)
+        reduced = False
+        for i in range(0, len(items), chunk):
+            cand = items[:i] + items[i + chunk:]
+            used += 1
+            if cand and still_fails(cand):
+                items, n, reduced = cand, max(n - 1, 2), True
+                break
+            if used >= budget:
+                break
+        if not reduced:
+            if chunk == 1:
+                break
+            n = min(len(items), n * 2)
+    return items
+
+
+def shrink_reader_witness(ctx, args, data, cls, fmt):
+    def fails(bs):
+        st, out, err = run_cli(ctx, args, bytes(bs), timeout=15)
+        k = c18_classify(st, err)
+        return k not in ("ok", "mlr_error") and reader_class({"fmt": fmt}, k, err) == cls
+    return bytes(shrink_seq(list(data), fails))
+
+
+def shrink_dsl_witness(ctx, prog, rec, cls):
+    toks = TOKEN_RE.findall(prog)
+
+    def fails(ts):
+        p = " ".join(ts)
+        st, out, err = run_cli(ctx, ["put", p], rec, timeout=15)
+        k = c18_classify(st, err)
+        return k not in ("ok", "mlr_error") and dsl_class(p, k, err) == cls
+    if not toks or not fails(toks):
+        return prog
+    return " ".join(shrink_seq(toks, fails))
 
 
 def reader_class(c, k, err):
@@ -856,7 +910,9 @@ def dsl_part(ctx, exe):
         if cls in seen:
             continue
         seen.add(cls)
+        p0, p = p, shrink_dsl_witness(ctx, p, rec, cls)
         ctx.violation({"class": cls, "part": "dsl", "input": "mlr put '%s'  (one DKVP record on stdin)" % p, "program": p, "mutation": kind,
+                       "program_before_shrinking": p0 if p0 != p else None,
                        "observed": "%s exit=%s %s" % (k, st, err.decode("utf-8", "replace")[:500]),
                        "expected": "parse+run, or an `mlr:` error with non-zero exit"})
     ctx.cov["dsl_mutation"]["suspects_inproc"] = len(suspects)
@@ -881,7 +937,7 @@ def dsl_class(p, k, err):
 # ---------------------------------------------------------------------------------------------------------------
 def run(ctx):
     ctx.cov["rule"] = ("(1) every row of the built-in function table x every tuple of 37 argument-kind representatives for arity <= 2, and of "
-                       "17 (quick) / 37 (thorough) for arity 3, invoked as the callsite nodes do, outcome table regenerated and re-proved; "
+                       "12 (quick) / 37 (thorough) for arity 3, invoked as the callsite nodes do, outcome table regenerated and re-proved; "
                        "(2) valid documents of 16 input formats x reader option sets x grammar-aware mutations (truncation at every byte, "
                        "nasty-token insertion, ragged lines, huge fields, CR/LF, BOM, invalid UTF-8, NUL) classified ok|mlr_error|panic|internal|hang; "
                        "directories and truncated gzip as inputs; DKVP/NIDX/TSV line-reader models compared record-for-record (hex dump through the DSL); "
